@@ -89,6 +89,9 @@ func rangeOf(l *natLoop) *rangeInfo {
 type collector struct {
 	p     *Program
 	depth int
+	// paramComplete: treat a slice parameter as a complete collection (the question is then
+	// "does the result keep every element of its argument?")
+	paramComplete bool
 }
 
 // containsAll decides whether slice value v holds every element of some registry collection.
@@ -134,6 +137,10 @@ func (c *collector) containsAll(v ssa.Value) (bool, string) {
 			if al, ok := x.X.(*ssa.Alloc); ok {
 				return c.accumulatorVar(al)
 			}
+		}
+	case *ssa.Parameter:
+		if c.paramComplete {
+			return true, "the parameter " + x.Name()
 		}
 	case *ssa.MakeSlice, *ssa.Const:
 		return false, "an empty slice"
@@ -278,6 +285,10 @@ func (c *collector) accumulator(fn *ssa.Function, v ssa.Value, al *ssa.Alloc, fv
 						elemOK = true
 					}
 				}
+				// a local struct copy of the element with some field adjusted (newRun := run; newRun.X = …)
+				if !elemOK && copyOfLoopElem(e, ri.Elem, 0) {
+					elemOK = true
+				}
 			}
 		}
 		if !elemOK {
@@ -290,8 +301,20 @@ func (c *collector) accumulator(fn *ssa.Function, v ssa.Value, al *ssa.Alloc, fv
 		if !l.Body[body] {
 			body = iff.Block().Succs[1]
 		}
+		// the appends of the loop's element in this loop, taken together (an if/else that appends
+		// the element in one branch and an adjusted copy of it in the other covers every iteration)
 		cut := map[*ssa.BasicBlock]bool{ap.Block(): true}
-		if body != ap.Block() && reachableBlocks(body, cut)[l.Header] {
+		for _, ap2 := range appends {
+			if ap2 == nil || ap2 == ap || !l.Body[ap2.Block()] || len(ap2.Call.Args) < 2 {
+				continue
+			}
+			for _, e2 := range varargElems(ap2.Call.Args[1]) {
+				if copyOfLoopElem(e2, ri.Elem, 0) {
+					cut[ap2.Block()] = true
+				}
+			}
+		}
+		if !cut[body] && reachableBlocks(body, cut)[l.Header] {
 			why = fmt.Sprintf("some iterations of the loop at %s skip the append (a filter or an early continue): entries of the registry are silently left out", c.p.pos(ap.Pos()))
 			continue
 		}
@@ -303,6 +326,41 @@ func (c *collector) accumulator(fn *ssa.Function, v ssa.Value, al *ssa.Alloc, fv
 		}
 	}
 	return false, why
+}
+
+// copyOfLoopElem: v is (a load of) a local variable whose whole value was copied from the loop's
+// element, possibly through another such variable.
+func copyOfLoopElem(v ssa.Value, elems []ssa.Value, depth int) bool {
+	if depth > 3 {
+		return false
+	}
+	for _, le := range elems {
+		if v == le {
+			return true
+		}
+		if ld, ok := v.(*ssa.UnOp); ok && ld.Op == token.MUL && ld.X == le {
+			return true
+		}
+	}
+	ld, ok := v.(*ssa.UnOp)
+	if !ok || ld.Op != token.MUL {
+		return false
+	}
+	al, ok := ld.X.(*ssa.Alloc)
+	if !ok || al.Referrers() == nil {
+		return false
+	}
+	whole := 0
+	okAll := true
+	for _, u := range *al.Referrers() {
+		if st, ok := u.(*ssa.Store); ok && st.Addr == ssa.Value(al) {
+			whole++
+			if !copyOfLoopElem(st.Val, elems, depth+1) {
+				okAll = false
+			}
+		}
+	}
+	return whole > 0 && okAll
 }
 
 // registrySinks: struct field (owner type name → field) whose marshalled slice must contain the
